@@ -3,7 +3,8 @@
 (* code is judged by the property-level definitions of Stats.tla.                  *)
 (* One ndjson line per record:                                                     *)
 (*   {"id": k, "op": <"wmom"|"wmedian"|"clip"|"interp"|"gstats"|"cov">,            *)
-(*    "c": <the abstract case (data, weights, ...)>,                               *)
+(*    "c": <the abstract case (data, weights, ...; rep, lat: how the arrays were   *)
+(*          handed to the code - read by no clause; tol: clipping tolerance)>,     *)
 (*    "runs": [{"p": <parameters of this call>, "o": <what it returned>}, ...]}    *)
 (* The case of run k is  c @@ runs[k].p ; a failing clause is reported as          *)
 (* "<k>:<clause>".                                                                 *)
